@@ -94,6 +94,8 @@ type Sched struct {
 	baseGoroutines int
 	UnownedSeen    bool
 	GoCalls        int
+	Chain          int // generate mode: how many more preemptions are followed by one of the task that got control
+	arm            int
 	Leftover       int // goroutines of the library still blocked when the run ended (every caller task had finished)
 	chans          map[unsafe.Pointer]*simChan
 	OnStep         func(ran *Task, reason string) // monitors; called by the runner before every hand-off and at task end
@@ -336,6 +338,15 @@ func (s *Sched) yield(site int, class int) {
 		} else if s.PreemptGlobal[n] {
 			hit, key = true, k0
 		}
+		// chained preemptions: after a switch, the task that got control is itself preempted a
+		// few synchronisation operations / shared-state accesses later - the fine-grained
+		// back-and-forth around critical sections in which check-then-act bugs show
+		if class == 1 && s.arm > 0 {
+			s.arm--
+			if s.arm == 0 && !hit {
+				hit, key = true, k1
+			}
+		}
 		if hit {
 			cands := s.runnable(t)
 			if len(cands) > 0 {
@@ -345,6 +356,10 @@ func (s *Sched) yield(site int, class int) {
 	}
 	if to == nil {
 		return
+	}
+	if !s.Replay && s.Chain > 0 {
+		s.Chain--
+		s.arm = 1 + s.Rng.Intn(3)
 	}
 	s.Decisions = append(s.Decisions, SchedDecision{Kind: "preempt", Yield: n, From: t.ID, To: to.ID, Site: site, Depth: t.depth, Class: key.Class, Idx: key.Idx})
 	s.SwitchSeq = append(s.SwitchSeq, uint64(t.ID)<<32|uint64(uint32(site)))
